@@ -474,6 +474,261 @@ theorem zero_tail_key (fs : Fields) (p : Nat) (hp : p = 4 ∨ p = 8) (hf : padFr
   rw [hll, hgo]
   omega
 
+/-! ## `padFree` is preserved by the raw conversion -/
+
+/-- `extraSize` of the last field / of the fields before it -/
+def extraLast (tg : Target) : Fields → Nat
+  | .nil => 0
+  | .cons t .nil => extra tg t
+  | .cons _ (.cons u fs) => extraLast tg (.cons u fs)
+def extrasInit (tg : Target) : Fields → Nat
+  | .nil => 0
+  | .cons _ .nil => 0
+  | .cons t (.cons u fs) => extra tg t + extrasInit tg (.cons u fs)
+
+theorem le_lastOS : ∀ (l : List (Nat × Nat)) (o : Nat), (∀ q ∈ l, 0 < q.2) → o ≤ (lastOS l o).1
+  | [], o, _ => by simp [lastOS]
+  | [(z, a)], o, h => by
+    simp only [lastOS]; exact le_alignUp o (show 0 < a from h (z, a) (by simp))
+  | (z, a) :: q :: r, o, h => by
+    have ih := le_lastOS (q :: r) (alignUp o a + z) (fun x hx => h x (by simp [hx]))
+    have := le_alignUp o (show 0 < a from h (z, a) (by simp))
+    simp only [lastOS]; omega
+
+theorem le_endOff : ∀ (l : List (Nat × Nat)) (o : Nat), (∀ q ∈ l, 0 < q.2) → o ≤ endOff l o
+  | [], o, _ => by simp [endOff]
+  | (z, a) :: r, o, h => by
+    have ih := le_endOff r (alignUp o a + z) (fun x hx => h x (by simp [hx]))
+    have := le_alignUp o (show 0 < a from h (z, a) (by simp))
+    simp only [endOff]; omega
+
+structure RInv (tg : Target) (t : GoType) : Prop where
+  pf : padFree tg (toRaw t) = true
+  size : (stdSA tg (toRaw t)).1 = (stdSA tg t).1 + extra tg t
+  align : (stdSA tg (toRaw t)).2 = (stdSA tg t).2
+  pos : 0 < extra tg t → 0 < (stdSA tg t).1
+
+structure RInvF (tg : Target) (fs : Fields) : Prop where
+  pf : padFrees tg (toRaws fs) = true
+  last : ∀ o E, tg.ptrSize ∣ E → fs ≠ .nil →
+    lastOS (stdSAs tg (toRaws fs)) (o + E) =
+      ((lastOS (stdSAs tg fs) o).1 + E + extrasInit tg fs, (lastOS (stdSAs tg fs) o).2 + extraLast tg fs)
+  maxa : maxAlignOf (stdSAs tg (toRaws fs)) = maxAlignOf (stdSAs tg fs)
+  initpos : ∀ o, 0 < extrasInit tg fs → 0 < (lastOS (stdSAs tg fs) o).1
+  endo : ∀ o E, tg.ptrSize ∣ E → endOff (stdSAs tg (toRaws fs)) (o + E) = endOff (stdSAs tg fs) o + E + extras tg fs
+  endpos : ∀ o, 0 < extras tg fs → 0 < endOff (stdSAs tg fs) o
+  apos : ∀ q ∈ stdSAs tg fs, 0 < q.2
+  initdvd : tg.ptrSize ∣ extrasInit tg fs
+
+theorem rinv_leaf (p : Nat) (hp : p = 4 ∨ p = 8) (t : GoType) (hraw : toRaw t = t ∨ t = .func)
+    (hx : extra (gcTarget p) t = 0 ∨ t = .func) (hs : stdSA (gcTarget p) (toRaw t) = stdSA (gcTarget p) t ∨ t = .func)
+    (hpf : padFree (gcTarget p) (toRaw t) = true) : RInv (gcTarget p) t := by
+  rcases hs with hs | rfl
+  · rcases hx with hx | rfl
+    · exact ⟨hpf, by rw [hs, hx]; rfl, by rw [hs], by rw [hx]; intro h; exact absurd h (Nat.lt_irrefl 0)⟩
+    · exact ⟨hpf, by rcases hp with rfl | rfl <;> decide, by rcases hp with rfl | rfl <;> decide,
+        by rcases hp with rfl | rfl <;> decide⟩
+  · exact ⟨hpf, by rcases hp with rfl | rfl <;> decide, by rcases hp with rfl | rfl <;> decide,
+      by rcases hp with rfl | rfl <;> decide⟩
+
+
+theorem tailOK_raw {l l' : List (Nat × Nat)} {A Ei xl : Nat} (_hA : 0 < A) (hl : tailOK l = true)
+    (hm : maxAlignOf l' = maxAlignOf l) (hAeq : maxAlignOf l = A)
+    (hlast : lastOS l' 0 = ((lastOS l 0).1 + Ei, (lastOS l 0).2 + xl)) (hd : A ∣ Ei)
+    (hpos : 0 < Ei → 0 < (lastOS l 0).1) : tailOK l' = true := by
+  simp only [tailOK, Bool.not_eq_true', Bool.and_eq_false_iff, decide_eq_false_iff_not, beq_eq_false_iff_ne] at hl ⊢
+  rw [hlast, hm, hAeq]
+  rw [hAeq] at hl
+  simp only
+  by_cases h1 : 0 < (lastOS l 0).1 + Ei
+  · by_cases h2 : (lastOS l 0).2 + xl = 0
+    · right
+      have hz : (lastOS l 0).2 = 0 := by omega
+      have hlo : 0 < (lastOS l 0).1 := by
+        by_cases hE : 0 < Ei
+        · exact hpos hE
+        · omega
+      rcases hl with (h | h) | h
+      · exact absurd hlo h
+      · exact absurd hz h
+      · intro hmod
+        apply h
+        have : A ∣ (lastOS l 0).1 + Ei := Nat.dvd_of_mod_eq_zero hmod
+        exact Nat.mod_eq_zero_of_dvd ((Nat.dvd_add_left hd).1 this)
+    · left; right; exact h2
+  · left; left; exact h1
+
+theorem maxAlignOf_cons (x : Nat × Nat) (r : List (Nat × Nat)) :
+    maxAlignOf (x :: r) = if x.2 > maxAlignOf r then x.2 else maxAlignOf r := by
+  obtain ⟨z, a⟩ := x; rfl
+
+theorem lastOS_cons_cons (x y : Nat × Nat) (r : List (Nat × Nat)) (o : Nat) :
+    lastOS (x :: y :: r) o = lastOS (y :: r) (alignUp o x.2 + x.1) := by
+  obtain ⟨z, a⟩ := x
+  simp [lastOS]
+
+mutual
+theorem rinv (p : Nat) (hp : p = 4 ∨ p = 8) : ∀ t, padFree (gcTarget p) t = true → RInv (gcTarget p) t
+  | .basic b, _ => rinv_leaf p hp _ (Or.inl rfl) (Or.inl rfl) (Or.inl rfl) rfl
+  | .pointer e, _ => ⟨by simp [toRaw, padFree], by simp [toRaw, stdSA, extra], by simp [toRaw, stdSA], by simp [extra]⟩
+  | .slice e, _ => ⟨by simp [toRaw, padFree], by simp [toRaw, stdSA, extra], by simp [toRaw, stdSA], by simp [extra]⟩
+  | .map k v, _ => ⟨by simp [toRaw, padFree], by simp [toRaw, stdSA, extra], by simp [toRaw, stdSA], by simp [extra]⟩
+  | .chan e, _ => ⟨by simp [toRaw, padFree], by simp [toRaw, stdSA, extra], by simp [toRaw, stdSA], by simp [extra]⟩
+  | .iface b, _ => ⟨by simp [toRaw, padFree], by simp [toRaw, stdSA, extra], by simp [toRaw, stdSA], by simp [extra]⟩
+  | .closure, _ => ⟨by simp [toRaw, padFree], by simp [toRaw, extra], by simp [toRaw], by simp [extra]⟩
+  | .func, _ => rinv_leaf p hp _ (Or.inr rfl) (Or.inr rfl) (Or.inr rfl) (by simp [toRaw, padFree])
+  | .named t, h => by
+    have ih := rinv p hp t (by simpa [padFree] using h)
+    exact ⟨by simpa [toRaw, padFree] using ih.pf, by simpa [toRaw, stdSA, extra] using ih.size,
+      by simpa [toRaw, stdSA] using ih.align, by simpa [stdSA, extra] using ih.pos⟩
+  | .array n e, h => by
+    have ih := rinv p hp e (by simpa [padFree] using h)
+    have hsz : ∀ z a, stdArraySize (gcTarget p) n z a = z * n := by
+      intro z a
+      unfold stdArraySize
+      split
+      · rename_i hc; rcases hc with rfl | hz
+        · simp
+        · simp [hz]
+      · simp [gcTarget]
+    refine ⟨by simpa [toRaw, padFree] using ih.pf, ?_, by simpa [toRaw, stdSA] using ih.align, ?_⟩
+    · simp only [toRaw, stdSA, extra, hsz, ih.size, Nat.add_mul]
+    · simp only [stdSA, extra, hsz]
+      intro hx
+      have hxe : 0 < extra (gcTarget p) e := Nat.pos_of_mul_pos_right hx
+      have hn : 0 < n := Nat.pos_of_mul_pos_left hx
+      exact Nat.mul_pos (ih.pos hxe) hn
+  | .struct fs, h => by
+    have h' : padFrees (gcTarget p) fs = true ∧ tailOK (stdSAs (gcTarget p) fs) = true := by
+      simpa [padFree] using h
+    have ih := rinvF p hp fs h'.1
+    have iv := invF p hp fs h'.1
+    have hA := maxAlignOf_pos (stdSAs (gcTarget p) fs)
+    have hE : maxAlignOf (stdSAs (gcTarget p) fs) ∣ extras (gcTarget p) fs := Nat.dvd_trans iv.maxa_dvd iv.ptr_dvd
+    have htail : tailOK (stdSAs (gcTarget p) (toRaws fs)) = true := by
+      cases fs with
+      | nil => simp [toRaws, stdSAs, tailOK, lastOS]
+      | cons t r =>
+        have hl := ih.last 0 0 (Nat.dvd_zero _) (by simp)
+        simp only [Nat.add_zero] at hl
+        exact tailOK_raw hA h'.2 ih.maxa rfl (by rw [hl]) (Nat.dvd_trans iv.maxa_dvd ih.initdvd) (ih.initpos 0)
+    refine ⟨?_, ?_, ?_, ?_⟩
+    · simp only [toRaw, padFree, ih.pf, htail, Bool.and_self]
+    · simp only [toRaw, stdSA, extra, stdStructSize_gc p _ htail, stdStructSize_gc p _ h'.2, ih.maxa]
+      have := ih.endo 0 0 (Nat.dvd_zero _)
+      simp only [Nat.add_zero] at this
+      rw [this, alignUp_add_of_dvd hA hE]
+    · simp only [toRaw, stdSA, ih.maxa]
+    · simp only [stdSA, extra, stdStructSize_gc p _ h'.2]
+      intro hx
+      have := ih.endpos 0 hx
+      have := le_alignUp (endOff (stdSAs (gcTarget p) fs) 0) hA
+      omega
+theorem rinvF (p : Nat) (hp : p = 4 ∨ p = 8) : ∀ fs, padFrees (gcTarget p) fs = true → RInvF (gcTarget p) fs
+  | .nil, _ => by
+    refine ⟨by simp [toRaws, padFrees], ?_, by simp [toRaws, stdSAs], ?_, ?_, ?_, ?_, ?_⟩
+    · intro o E _ hne; exact absurd rfl hne
+    · intro o h; simp [extrasInit] at h
+    · intro o E _; simp [toRaws, stdSAs, endOff, extras]
+    · intro o h; simp [extras] at h
+    · intro q hq; simp [stdSAs] at hq
+    · simp [extrasInit]
+  | .cons t .nil, h => by
+    have h' : padFree (gcTarget p) t = true := by simpa [padFrees] using h
+    have it := rinv p hp t h'
+    have iv := inv p hp t h'
+    refine ⟨by simp [toRaws, padFrees, it.pf], ?_, ?_, ?_, ?_, ?_, ?_, ?_⟩
+    · intro o E hE _
+      have haE : (stdSA (gcTarget p) t).2 ∣ E := Nat.dvd_trans iv.align_dvd_ptr hE
+      simp only [toRaws, stdSAs, lastOS, extrasInit, extraLast, it.size, it.align,
+        alignUp_add_of_dvd iv.align_pos haE, Nat.add_zero]
+    · simp only [toRaws, stdSAs]
+      rw [maxAlignOf_cons, maxAlignOf_cons, it.align]
+    · intro o hx; simp [extrasInit] at hx
+    · intro o E hE
+      have haE : (stdSA (gcTarget p) t).2 ∣ E := Nat.dvd_trans iv.align_dvd_ptr hE
+      simp only [toRaws, stdSAs, endOff, extras, it.size, it.align, alignUp_add_of_dvd iv.align_pos haE]
+      omega
+    · intro o hx
+      simp only [extras, Nat.add_zero] at hx
+      have := it.pos hx
+      simp only [stdSAs, endOff]; omega
+    · intro q hq
+      simp only [stdSAs, List.mem_singleton] at hq
+      rw [hq]; exact iv.align_pos
+    · simp [extrasInit]
+  | .cons t (.cons u r), h => by
+    have h' : padFree (gcTarget p) t = true ∧ padFrees (gcTarget p) (.cons u r) = true := by simpa [padFrees] using h
+    have it := rinv p hp t h'.1
+    have iv := inv p hp t h'.1
+    have ifs := rinvF p hp (.cons u r) h'.2
+    have ivf := invF p hp (.cons u r) h'.2
+    have hapos : ∀ q ∈ stdSAs (gcTarget p) (.cons t (.cons u r)), 0 < q.2 := by
+      intro q hq
+      simp only [stdSAs, List.mem_cons] at hq
+      rcases hq with rfl | hq
+      · exact iv.align_pos
+      · exact ifs.apos q (by simpa [stdSAs] using hq)
+    have hpf : padFrees (gcTarget p) (toRaws (.cons t (.cons u r))) = true := by
+      show (padFree (gcTarget p) (toRaw t) && padFrees (gcTarget p) (toRaws (.cons u r))) = true
+      rw [it.pf, ifs.pf]; rfl
+    refine ⟨hpf, ?_, ?_, ?_, ?_, ?_, hapos, ?_⟩
+    · intro o E hE _
+      have haE : (stdSA (gcTarget p) t).2 ∣ E := Nat.dvd_trans iv.align_dvd_ptr hE
+      have := ifs.last (alignUp o (stdSA (gcTarget p) t).2 + (stdSA (gcTarget p) t).1) (E + extra (gcTarget p) t)
+        ((Nat.dvd_add_right hE).2 iv.ptr_dvd_extra) (by simp)
+      simp only [toRaws, stdSAs] at this ⊢
+      rw [lastOS_cons_cons, lastOS_cons_cons]
+      simp only [it.size, it.align, alignUp_add_of_dvd iv.align_pos haE]
+      rw [show alignUp o (stdSA (gcTarget p) t).2 + E + ((stdSA (gcTarget p) t).1 + extra (gcTarget p) t)
+            = alignUp o (stdSA (gcTarget p) t).2 + (stdSA (gcTarget p) t).1 + (E + extra (gcTarget p) t) by omega, this]
+      simp only [extrasInit, extraLast, Prod.mk.injEq]
+      constructor
+      · omega
+      · trivial
+    · have := ifs.maxa
+      show maxAlignOf (stdSA (gcTarget p) (toRaw t) :: stdSAs (gcTarget p) (toRaws (.cons u r)))
+        = maxAlignOf (stdSA (gcTarget p) t :: stdSAs (gcTarget p) (.cons u r))
+      rw [maxAlignOf_cons, maxAlignOf_cons, it.align, this]
+    · intro o hx
+      simp only [extrasInit] at hx
+      simp only [stdSAs]
+      rw [lastOS_cons_cons]
+      have hmono := le_lastOS (stdSAs (gcTarget p) (.cons u r)) (alignUp o (stdSA (gcTarget p) t).2 + (stdSA (gcTarget p) t).1) ifs.apos
+      simp only [stdSAs] at hmono
+      by_cases hxt : 0 < extra (gcTarget p) t
+      · have := it.pos hxt
+        omega
+      · have := ifs.initpos (alignUp o (stdSA (gcTarget p) t).2 + (stdSA (gcTarget p) t).1) (by omega)
+        simpa [stdSAs] using this
+    · intro o E hE
+      have haE : (stdSA (gcTarget p) t).2 ∣ E := Nat.dvd_trans iv.align_dvd_ptr hE
+      have := ifs.endo (alignUp o (stdSA (gcTarget p) t).2 + (stdSA (gcTarget p) t).1) (E + extra (gcTarget p) t)
+        ((Nat.dvd_add_right hE).2 iv.ptr_dvd_extra)
+      simp only [toRaws, stdSAs] at this ⊢
+      simp only [endOff, it.size, it.align, alignUp_add_of_dvd iv.align_pos haE]
+      rw [show alignUp o (stdSA (gcTarget p) t).2 + E + ((stdSA (gcTarget p) t).1 + extra (gcTarget p) t)
+            = alignUp o (stdSA (gcTarget p) t).2 + (stdSA (gcTarget p) t).1 + (E + extra (gcTarget p) t) by omega]
+      simp only [endOff] at this
+      rw [this]
+      simp only [extras]; omega
+    · intro o hx
+      simp only [extras] at hx
+      have hmono := le_endOff (stdSAs (gcTarget p) (.cons u r)) (alignUp o (stdSA (gcTarget p) t).2 + (stdSA (gcTarget p) t).1) ifs.apos
+      simp only [stdSAs, endOff] at hmono ⊢
+      by_cases hxt : 0 < extra (gcTarget p) t
+      · have := it.pos hxt
+        omega
+      · have := ifs.endpos (alignUp o (stdSA (gcTarget p) t).2 + (stdSA (gcTarget p) t).1) (by simp only [extras]; omega)
+        simpa [stdSAs, endOff] using this
+    · simp only [extrasInit]
+      exact (Nat.dvd_add_right iv.ptr_dvd_extra).2 ifs.initdvd
+end
+
+theorem padFree_toRaw (p : Nat) (hp : p = 4 ∨ p = 8) (t : GoType) (h : padFree (gcTarget p) t = true) :
+    padFree (gcTarget p) (toRaw t) = true := (rinv p hp t h).pf
+
+
 /-! ## natural C layout -/
 
 theorem wfC_basic {tg : Target} {cmax : Nat} (h : wfC tg cmax = true) (b : Basic) (hb : b ≠ .string) :
